@@ -412,7 +412,7 @@ def refresh_schedule(prog: Program, rep) -> None:
                 continue
             sup = [x for x in own_nodes(ini.node) if isinstance(x, ast.Call) and isinstance(x.func, ast.Attribute) and x.func.attr == "__init__" and U(x.func.value) == "super()"]
             parent = None
-            for b in prog.mro(k)[1:]:
+            for b in prog.super_bases(ini):
                 if "__init__" in b.methods:
                     parent = b.methods["__init__"]
                     break
